@@ -732,3 +732,5 @@ Fixpoint conv_ser_frame (f : frame) : list Z :=
   | FOther id k x => 9 :: conv_ser_text id ++ conv_ser_text k ++ conv_ser_text x
   end.
 Definition conv_ser_tag (t : tag) : list Z := conv_ser_list conv_ser_frame t.
+
+(* EXTRACT: conv_update_to_v23 conv_update_to_v24 conv_v23_frame conv_saved conv_saved23 conv_make_id3v1 conv_parse_id3v1 conv_stamp_parse conv_stamp_text conv_py_int conv_genres conv_frame_bytes conv_tag_bytes conv_walk *)
